@@ -152,6 +152,9 @@ fn emit(outcome: &str, signature: &str, detail: &str) -> ! {
         });
         json!({
             "steps": i.steps,
+            "sim_time": i.now(),
+            "clock_jumps": i.clock_jumps,
+            "timeouts_fired": i.timeouts_fired,
             "polls": i.polls,
             "switches": i.switches,
             "trace_fp": format!("{:016x}", i.trace_fp.0),
